@@ -281,8 +281,15 @@ func runC19(c *eng.Ctx, thorough bool) {
 			"vault.(*TokenStore).lookupInternal":     "on-read migration of the deprecated num_uses field into the entry just decoded (local copy, before it is returned)",
 		}
 		if ut := c.P.Func("vault.(*TokenStore).UseToken"); ut != nil {
-			if b := useTokenBody(c, ut); b != nil && b != ut {
-				allowed[eng.FuncName(b)] = "locked body of UseToken: only entered with a token lock held (C19.1)"
+			if b := useTokenBody(c, ut); b != nil {
+				if b != ut {
+					allowed[eng.FuncName(b)] = "locked body of UseToken: only entered with a token lock held (C19.1)"
+				}
+				if len(eng.Calls(b, fwdPat(b, tokenStorePat))) == 0 {
+					if tl, _, _ := useTokenTail(c, b); tl != nil {
+						allowed[eng.FuncName(tl)] = "decrement-and-store tail of UseToken: only entered with a token lock held, on the re-read entry (C19.1)"
+					}
+				}
 			}
 		}
 		for _, w := range c.P.FieldWriters(fv) {
@@ -498,11 +505,8 @@ func useTokenAtomic(c *eng.Ctx, clause string) {
 		c.Undecided(f, "locked{re-read, decrement, store}", f.Pos(), "UseToken neither re-reads the entry itself nor calls exactly one function of its package that does and that only runs under a token lock (moved? the rule cannot be evaluated)")
 		return
 	}
-	storePat := fwdPat(body, tokenStorePat)
 	reread := eng.Calls(body, tokenLookupPat)
-	stores := eng.Calls(body, storePat)
 	c.Floor(body, "re-read (lookupInternal)", len(reread), 1)
-	c.Floor(body, "ts.store", len(stores), 1)
 	if body != f {
 		// the body helper is entered with the lock held (heldByEveryCaller); UseToken's own call is one of those
 		for _, cl := range eng.Calls(f, "^"+regexp.QuoteMeta(eng.FuncName(body))+"$") {
@@ -513,20 +517,23 @@ func useTokenAtomic(c *eng.Ctx, clause string) {
 			}
 		}
 	}
-	for _, in := range append(append([]ssa.CallInstruction{}, reread...), stores...) {
+	lockedSite := func(fn *ssa.Function, in ssa.CallInstruction) {
 		name := eng.CalleeName(in.Common())
 		if strings.HasPrefix(name, "closure:") {
 			name = "vault.(*TokenStore).store"
 		}
 		site := "locked{" + name + "}"
 		switch {
-		case body != f:
-			c.OK(body, site, in.Pos(), "executes in the locked body "+eng.FuncName(body)+", which is only entered with a token lock held")
+		case fn != f:
+			c.OK(fn, site, in.Pos(), "executes in the locked body "+eng.FuncName(fn)+", which is only entered with a token lock held")
 		case held(in):
 			c.OK(f, site, in.Pos(), "executes with the per-token lock (LockForKey(ts.tokenLocks, te.ID)) held on every path")
 		default:
 			c.Violation(f, site, in.Pos(), "reachable without holding LockForKey(ts.tokenLocks, te.ID).Lock()", nil)
 		}
+	}
+	for _, in := range reread {
+		lockedSite(body, in)
 	}
 	// the lock is keyed by the id of the token that is used
 	c.Clause("R5", clause)
@@ -547,9 +554,69 @@ func useTokenAtomic(c *eng.Ctx, clause string) {
 		}
 	}
 	c.Floor(f, "per-token Lock()", nk, 1)
+
+	// where the tail (decrement / marker, store) lives: in the body itself, or — when only the tail was
+	// moved out — in the unique function of the package that the body calls under the lock with the
+	// re-read entry and whose results it returns
+	const reReadEntry = `^call:vault\.\(\*TokenStore\)\.lookupInternal#0$`
+	tail, entryPat, onePat, entryIsParam := body, reReadEntry, `lookupInternal\(\)#0\.NumUses == 1$`, false
+	if len(eng.Calls(body, fwdPat(body, tokenStorePat))) == 0 {
+		tl, call, idx := useTokenTail(c, body)
+		if tl == nil {
+			c.Clause("R9", clause)
+			c.Undecided(body, "locked{decrement, store}", body.Pos(), "the body re-reads the entry but neither stores it nor hands it to exactly one function of its package that decrements and stores it and only runs under a token lock (moved? the rule cannot be evaluated)")
+			return
+		}
+		c.Clause("R9", clause)
+		if body != f || held(call) {
+			c.OK(body, "locked{"+eng.FuncName(tl)+"}", call.Pos(), "the decrement-and-store tail is called with the per-token lock held; all its callers hold a token lock")
+		} else {
+			c.Violation(body, "locked{"+eng.FuncName(tl)+"}", call.Pos(), "the decrement-and-store tail is reachable without holding the per-token lock", nil)
+		}
+		c.Clause("R3", clause)
+		c.Before(body, "re-read under lock", eng.AsInstrs(reread), "decrement-and-store tail", []ssa.Instruction{call})
+		c.Clause("R5", clause)
+		c.Prov(body, "entry handed to the decrement-and-store tail", call, call.Common().Args[idx], reReadEntry)
+		// what the tail returns is what the body returns
+		okRet := true
+		nret := 0
+		for _, r := range eng.ReturnsFrom(body, nil, call, nil) {
+			if r.Block().Comment == "recover" {
+				continue
+			}
+			nret++
+			for i := range r.Results {
+				vals, _, _ := eng.ReturnVals(r, i)
+				for _, v := range vals {
+					ex, isEx := v.(*ssa.Extract)
+					if !isEx || ex.Tuple != ssa.Value(call.(*ssa.Call)) || ex.Index != i {
+						okRet = false
+					}
+				}
+			}
+		}
+		if okRet && nret > 0 {
+			c.OK(body, "results of the tail returned unchanged", call.Pos(), eng.FuncName(tl))
+		} else {
+			c.Violation(body, "results of the tail returned unchanged", call.Pos(), "after the decrement-and-store tail ran the body returns something else than its results (a failed store could be reported as success)", nil)
+		}
+		p := tl.Params[idx]
+		tail, entryIsParam = tl, true
+		entryPat = `^param:` + regexp.QuoteMeta(eng.VarName(p)) + `$`
+		onePat = `^` + regexp.QuoteMeta(eng.VarName(p)) + `\.NumUses == 1$`
+	}
+	storePat := fwdPat(tail, tokenStorePat)
+	stores := eng.Calls(tail, storePat)
+	c.Clause("R9", clause)
+	c.Floor(tail, "ts.store", len(stores), 1)
+	for _, in := range stores {
+		lockedSite(tail, in)
+	}
 	// a deferred or explicit Unlock must not precede the store: release sites must come after store on all paths
 	c.Clause("R3", clause)
-	c.Before(body, "re-read under lock", eng.AsInstrs(reread), "ts.store", eng.AsInstrs(stores))
+	if tail == body {
+		c.Before(body, "re-read under lock", eng.AsInstrs(reread), "ts.store", eng.AsInstrs(stores))
+	}
 	// the decrement's operand is the re-read entry
 	c.Clause("R5", clause)
 	numUses := c.P.Field("logical.TokenEntry.NumUses")
@@ -558,12 +625,12 @@ func useTokenAtomic(c *eng.Ctx, clause string) {
 		val ssa.Value
 	}
 	var assigns []assign
-	for _, st := range eng.Stores(body, `\.NumUses$`) {
+	for _, st := range eng.Stores(tail, `\.NumUses$`) {
 		if numUses != nil && eng.FieldVar(st.Addr) != numUses {
 			continue
 		}
 		fa := st.Addr.(*ssa.FieldAddr)
-		c.Prov(body, "base of NumUses store", st, fa.X, `^call:vault\.\(\*TokenStore\)\.lookupInternal#0$`)
+		c.Prov(tail, "base of NumUses store", st, fa.X, entryPat)
 		if phi, ok := st.Val.(*ssa.Phi); ok {
 			for i, e := range phi.Edges {
 				pb := phi.Block().Preds[i]
@@ -573,14 +640,14 @@ func useTokenAtomic(c *eng.Ctx, clause string) {
 			assigns = append(assigns, assign{st, st.Val})
 		}
 	}
-	c.Floor(body, "values assigned to NumUses (decrement and marker)", len(assigns), 2)
+	c.Floor(tail, "values assigned to NumUses (decrement and marker)", len(assigns), 2)
 	for _, s := range stores {
-		arg := fwdArg(body, tokenStorePat, s, 2)
+		arg := fwdArg(tail, tokenStorePat, s, 2)
 		if arg == nil {
-			c.Undecided(body, "prov{entry passed to ts.store}", s.Pos(), "the entry operand of the forwarded store call could not be related to the call site")
+			c.Undecided(tail, "prov{entry passed to ts.store}", s.Pos(), "the entry operand of the forwarded store call could not be related to the call site")
 			continue
 		}
-		c.Prov(body, "entry passed to ts.store", s, arg, `^call:vault\.\(\*TokenStore\)\.lookupInternal#0$`)
+		c.Prov(tail, "entry passed to ts.store", s, arg, entryPat)
 	}
 	// last use stores the pending marker
 	c.Clause("R2", clause)
@@ -590,10 +657,10 @@ func useTokenAtomic(c *eng.Ctx, clause string) {
 			marker = append(marker, a.at)
 		}
 	}
-	c.Cut(body, "NumUses = tokenRevocationPending", marker, eng.G(body, `lookupInternal\(\)#0\.NumUses == 1$`, true), nil)
+	c.Cut(tail, "NumUses = tokenRevocationPending", marker, eng.G(tail, onePat, true), nil)
 	// success return only with store success
 	var okRets []ssa.Instruction
-	for _, r := range eng.Returns(body) {
+	for _, r := range eng.Returns(tail) {
 		if r.Block().Comment == "recover" {
 			continue
 		}
@@ -608,7 +675,9 @@ func useTokenAtomic(c *eng.Ctx, clause string) {
 		nonNilEntry := false
 		for _, v := range ents {
 			if !eng.IsNilConst(v) {
-				if _, isParam := v.(*ssa.Parameter); !isParam {
+				// in an unsplit body a returned parameter is the unlocked fast path (own rule, C19.1c);
+				// in a split-off tail the entry parameter IS the re-read entry
+				if _, isParam := v.(*ssa.Parameter); !isParam || entryIsParam {
 					nonNilEntry = true
 				}
 			}
@@ -617,5 +686,54 @@ func useTokenAtomic(c *eng.Ctx, clause string) {
 			okRets = append(okRets, r)
 		}
 	}
-	c.Cut(body, "return (re-read entry, nil)", okRets, eng.GCallOK(body, storePat), nil)
+	c.Cut(tail, "return (re-read entry, nil)", okRets, eng.GCallOK(tail, storePat), nil)
+}
+
+// useTokenTail: the unique function of body's package that body calls, that
+// carries the NumUses stores and the ts.store call, that takes a token entry
+// and that is only ever entered with a token lock held. Returns it with the
+// call site in body and the index of the entry parameter/argument.
+func useTokenTail(c *eng.Ctx, body *ssa.Function) (*ssa.Function, ssa.CallInstruction, int) {
+	numUses := c.P.Field("logical.TokenEntry.NumUses")
+	var tl *ssa.Function
+	var site ssa.CallInstruction
+	idx := -1
+	n := 0
+	for _, cl := range eng.Calls(body, `.`) {
+		h := cl.Common().StaticCallee()
+		if _, isCall := cl.(*ssa.Call); !isCall || h == nil || h.Pkg != body.Pkg || len(h.Blocks) == 0 || h.Parent() != nil || h == body {
+			continue
+		}
+		if len(eng.Calls(h, fwdPat(h, tokenStorePat))) == 0 {
+			continue
+		}
+		writes := false
+		for _, st := range eng.Stores(h, `\.NumUses$`) {
+			if numUses == nil || eng.FieldVar(st.Addr) == numUses {
+				writes = true
+			}
+		}
+		if !writes || !heldByEveryCaller(c, h) {
+			continue
+		}
+		k := -1
+		for j, p := range h.Params {
+			if strings.HasSuffix(p.Type().String(), "logical.TokenEntry") {
+				if k >= 0 {
+					k = -2
+					break
+				}
+				k = j
+			}
+		}
+		if k < 0 || k >= len(cl.Common().Args) {
+			continue
+		}
+		n++
+		tl, site, idx = h, cl, k
+	}
+	if n != 1 {
+		return nil, nil, -1
+	}
+	return tl, site, idx
 }
